@@ -479,22 +479,30 @@ def cloneOptionInto (v : CloneVariant) (d : Dom) (option sc : Id) : Except Strin
     let scn ← d.get sc
     .ok (d.setNode sc { scn with children := frag })
 
-/-- `maybe_clone_an_option_into_selectedcontent` (lib.rs:564).  The `debug_assert_eq!` on the
-local name `option` exists in debug builds only (the harness is a debug build). -/
-def maybeCloneOption (v : CloneVariant) (d : Dom) (option : Id) : Except String Dom := do
+/-- the first half of `maybe_clone_an_option_into_selectedcontent` (lib.rs:564): the `selectedcontent`
+element that is to mirror `option`, `none` when one of the conditions of the standard fails
+(no nearest ancestor `select`, `select` is `multiple`, no `selectedcontent` descendant, the option has
+no `selected` attribute).  The `debug_assert_eq!` on the local name `option` exists in debug builds
+only (the harness is a debug build). -/
+def cloneTarget (v : CloneVariant) (d : Dom) (option : Id) : Except String (Option Id) := do
   let o ← d.get option
   match o.data with
   | .element name attrs _ _ =>
     if name.loc ≠ sOption then
       throw "debug-assert: maybe_clone_an_option_into_selectedcontent: debug_assert_eq!(local_name, option)"
     match ← d.nearestAncestorSelect option with
-    | none => .ok d
+    | none => .ok none
     | some select =>
       match ← d.enabledSelectedcontent v select with
-      | none => .ok d
-      | some sc =>
-        if hasAttrLocal attrs sSelected then d.cloneOptionInto v option sc else .ok d
+      | none => .ok none
+      | some sc => if hasAttrLocal attrs sSelected then .ok (some sc) else .ok none
   | _ => throw "mc-non-element: \"maybe clone an option into selectedcontent\" called with non-element node"
+
+/-- `maybe_clone_an_option_into_selectedcontent` (lib.rs:564) -/
+def maybeCloneOption (v : CloneVariant) (d : Dom) (option : Id) : Except String Dom := do
+  match ← d.cloneTarget v option with
+  | none => .ok d
+  | some sc => d.cloneOptionInto v option sc
 
 end Dom
 
